@@ -7,6 +7,7 @@ import (
 	"fmt"
 	"io"
 	"os"
+	"reflect"
 	"sort"
 	"strings"
 
@@ -84,7 +85,7 @@ func (e *Env) verifyObs() *VerifyObs {
 		frames = append(frames, fmt.Sprintf("%d:%d:%d", uint64(binary.BigEndian.Uint32(fr[8:]))<<32|uint64(binary.BigEndian.Uint32(fr[12:])),
 			binary.BigEndian.Uint32(fr[0:]), tok(fr[24:])))
 	}
-	line += fmt.Sprintf(" HS=%d F=%s STE=%d FRESH=%d", hs, strings.Join(frames, ","), b2i(st.SyncedToWALEnd), b2i(st.LastSyncedWALOffset == 0))
+	line += fmt.Sprintf(" HS=%d F=%s STE=%d FRESH=%d UNRES=%d", hs, strings.Join(frames, ","), b2i(st.SyncedToWALEnd), b2i(st.LastSyncedWALOffset == 0), b2i(unresolved(st)))
 	info, err := db.VerifVerify(e.Ctx)
 	if err != nil {
 		return &VerifyObs{Line: line, Real: "err"}
@@ -104,4 +105,11 @@ func (e *Env) verifyObs() *VerifyObs {
 		real += fmt.Sprintf(" hdr=%d", useHdr)
 	}
 	return &VerifyObs{Line: line, Real: real}
+}
+
+// unresolved reads VerifSyncState.CheckpointUnresolved when the tree has it (scratch trees cut
+// before the repair 98a2369 do not).
+func unresolved(st any) bool {
+	f := reflect.ValueOf(st).FieldByName("CheckpointUnresolved")
+	return f.IsValid() && f.Kind() == reflect.Bool && f.Bool()
 }
